@@ -202,6 +202,9 @@ DIRECTED = [
     "a;a;s:1:0:ab=1&ac=2&b=3;p:0:0:a*&*b&ab&?c@g1;u:0:a*;s:1:0:ab=4&ac=0;u:0:*b;u:0:ab;u:0:?c",
     # subscriptions to own nodes are ignored by the statement
     "a;a;p:0:0:*;s:0:0:a=1;s:1:0:a=2;r:0:0:a;d:1",
+    # overlapping subscriptions made BEFORE the node exists, partial unsubscribe, then change / removal / departure (counts, not flags)
+    "a;a;p:0:0:a*&ab&?b;s:1:0:ab=1;u:0:ab;s:1:0:ab=2;u:0:?b;s:1:0:ab=3;r:1:0:ab;s:1:0:ab=4;u:0:a*;s:1:0:ab=5;d:1",
+    "a;a;a;p:0:0:x*&xy;p:2:0:x*&xy&*y;s:1:0:xy=1&xz=2;u:0:xy;u:2:x*;s:1:0:xy=3;u:2:*y;d:1",
     # batch of subscribe / unsubscribe / resubscribe
     "a;a;s:1:0:a=1&b=2;b:0:p~0~a+u~a+p~0~a@g0&b+u~b+p~0~*",
 ]
